@@ -8,7 +8,6 @@ EXPLANATION = ('Loop summaries and effect sets of core::_init and its three entr
                'T::from_f64(StandardNormal.sample(&mut rng)) per element collected in iteration order from ONE generator (row-major single stream => a request for fewer rows '
                'is a prefix of a larger one with the same d and seed); init_with_seed seeds a local generator from its argument and has no other effect; '
                'init_det(n, d) = init_with_seed(n, d, 42) with arguments in order; init seeds from the OS. Normality/independence as statistics are not decided (draw kind only).')
-FLOORS = {'obligations': 13}   # counted on the reference tree; fewer instantiated obligations is reported, never passed silently
 TECHNIQUE = 'loop summaries (nested trip counts, single carried generator) + effect-set analysis'
 
 
@@ -60,13 +59,26 @@ def run(ctx):
         ctx.check('C18.init_os', 'core::init', 'source', ok, expected='one OS-seeded local generator, all draws from it, shape (n, d)', found=str(kinds), sp=bi['sp'], why='unseeded variant: fresh entropy, same shape and distribution')
 
 
+CONSTRUCT = ('forced', 'for')     # iterator pipelines (map/collect) and explicit for + push are the same construction
+
+
+def loop_view(ls):
+    """(generator keys, accumulator key or None, element produced per iteration) of a construction loop, whichever way it is written"""
+    if ls.kind == 'forced':
+        return carried_keys(ls), None, getattr(ls, 'result_term', None)
+    accs = [k for k in ls.lh if T.is_app(ls.next[k], 'push') and ls.next[k][2][0] is ls.lh[k]]
+    if len(accs) != 1:
+        return carried_keys(ls), None, None
+    return [k for k in carried_keys(ls) if k is not accs[0]], accs[0], ls.next[accs[0]][2][1]
+
+
 def shape_sig(ctx, ev):
     """(outer trip count, inner trip count, draws per element) of the nested construction loops"""
     ik = ctx.helper_key('core._init', 'core::_init')
-    outer = [ls for ls in ev.vf.loops if ls.kind == 'forced' and not ls.ctx and (ls.owner or '') == ik]
+    outer = [ls for ls in ev.vf.loops if ls.kind in CONSTRUCT and not ls.ctx and (ls.owner or '') == ik]
     if len(outer) != 1:
         return ('?',)
-    inner = [ls for ls in ev.vf.loops if ls.ctx == (outer[0].uid,) and ls.kind == 'forced']
+    inner = [ls for ls in ev.vf.loops if ls.ctx == (outer[0].uid,) and ls.kind in CONSTRUCT]
     if len(inner) != 1:
         return (show(outer[0].n), '?')
     nd = len([e for e in inner[0].events if e.op == 'draw'])
@@ -77,12 +89,12 @@ def shape(ctx, A, b):
     ev = ctx.evaluate(b)
     sp = b['sp']
     n, d, rng = S('n'), S('d'), S('rng')
-    outer = [ls for ls in ev.vf.loops if ls.kind == 'forced' and not ls.ctx]
+    outer = [ls for ls in ev.vf.loops if ls.kind in CONSTRUCT and not ls.ctx]
     if len(outer) != 1:
         ctx.unknown('C18.shape', A, 'loops', why='expected one outer construction loop', sp=sp)
         return
     lo = outer[0]
-    inner = [ls for ls in ev.vf.loops if ls.ctx == (lo.uid,) and ls.kind == 'forced']
+    inner = [ls for ls in ev.vf.loops if ls.ctx == (lo.uid,) and ls.kind in CONSTRUCT]
     ctx.check('C18.shape.outer_n', A, 'outer', lo.n is n and not lo.exits, expected='n rows', found=show(lo.n), sp=lo.sp, why='exactly n vectors')
     if len(inner) != 1:
         ctx.unknown('C18.shape.inner_d', A, 'inner', why='expected one inner loop per row', sp=sp)
@@ -90,19 +102,24 @@ def shape(ctx, A, b):
     li = inner[0]
     ctx.check('C18.shape.inner_d', A, 'inner', li.n is d and not li.exits, expected='d entries per row', found=show(li.n), sp=li.sp, why='each vector has length d')
     draws = [e for e in li.events if e.op == 'draw']
-    gk = [k for k in li.lh]
+    gk, acc_i, elem_i = loop_view(li)
+    gko, acc_o, elem_o = loop_view(lo)
     okelem = False
     if len(draws) == 1 and len(gk) == 1:
         dr = draws[0]
         lh = li.lh[gk[0]]
-        okelem = dr.draw_kind == 'dist_sample' and 'StandardNormal' in show(dr.args[1]) and dr.args[0] is lh and li.next[gk[0]] is T.app('post0', dr.res) and li.result_term is dr.res \
-            and dr.gargs[1:2] == ['f64']
+        okelem = dr.draw_kind == 'dist_sample' and 'StandardNormal' in show(dr.args[1]) and dr.args[0] is lh and li.next[gk[0]] is T.app('post0', dr.res) and elem_i is dr.res \
+            and dr.gargs[1:2] == ['f64'] and (acc_i is None or li.init[acc_i] is T.app('array'))
     ctx.check('C18.elem', A, 'element', okelem, expected='one StandardNormal.sample(&mut rng) (f64) per element, converted with T::from_f64(..).unwrap(), generator advanced once', found='%d draws per element' % len(draws), sp=li.sp,
               why='independent standard-normal entries; finite f64 always converts')
-    # single stream, row-major: the generator is the only carried place of both loops, threaded inner -> outer
-    gko = [k for k in lo.lh]
+    # single stream, row-major: the generator is the only carried place of both loops (besides the row / result being built), threaded inner -> outer
     okorder = len(gko) == 1 and len(gk) == 1 and keyrepr(gko[0]) == keyrepr(gk[0]) and li.init[gk[0]] is lo.lh[gko[0]] and lo.next[gko[0]] is li.lx[gk[0]] and lo.init[gko[0]] is rng
-    ctx.check('C18.order', A, 'order', okorder, expected='one generator threaded through all n*d draws in row-major order (rows outer, entries inner)', found='outer carried %s, inner carried %s' % ([keyrepr(k) for k in gko], [keyrepr(k) for k in gk]), sp=sp,
+    ctx.check('C18.order', A, 'order', okorder, expected='one generator threaded through all n*d draws in row-major order (rows outer, entries inner)', found='outer carried %s, inner carried %s' % ([keyrepr(k) for k in lo.lh], [keyrepr(k) for k in li.lh]), sp=sp,
               why='the first rows of a larger request equal a smaller request with the same d and seed (prefix property)')
-    k1, k2 = S('k#r'), S('k#c')
-    ctx.check('C18.collect', A, 'collect', T.is_app(ev.ret_term, 'eff') and ev.ret_term[2][0][2][0] is n, expected='rows collected in iteration order', found=show(ev.ret_term)[:200], sp=sp, why='row r of the result is the r-th row drawn')
+    # row r of the result is the r-th row drawn: the outer element is the inner collection, the result is the outer collection (started empty)
+    if acc_o is None:
+        okcol = T.is_app(ev.ret_term, 'eff') and ev.ret_term[2][0][2][0] is n
+    else:
+        row_ok = (acc_i is not None and elem_o is li.lx[acc_i]) or (acc_i is None and T.is_app(elem_o, 'eff'))
+        okcol = ev.ret_term is lo.lx[acc_o] and lo.init[acc_o] is T.app('array') and row_ok
+    ctx.check('C18.collect', A, 'collect', okcol, expected='rows collected in iteration order', found=show(ev.ret_term)[:200], sp=sp, why='row r of the result is the r-th row drawn')
